@@ -102,7 +102,8 @@ type vWorld struct {
 	leaseNet *mock.Network[TxRequest, types.Nil]
 	recNet   *mock.Network[RecoveryRequest, RecoveryResponse]
 	thr      int
-	live     bool // real feedback transport and a 5 ms gossip interval (TestVerifKVLive)
+	gate     *vRecGate // when set, the next opened node's recovery streams are gated (restart_gated)
+	live     bool      // real feedback transport and a 5 ms gossip interval (TestVerifKVLive)
 	nodes    map[int]*vNode
 	mu       sync.Mutex
 	fbs      []vFb
@@ -233,6 +234,52 @@ func (c *vLeaseClient) Send(ctx context.Context, target address.Address, req TxR
 	return types.Nil{}, nil
 }
 
+// vRecGate holds a restarting node inside its start-up recovery: every recovery stream of the
+// node delivers all responses, then blocks right before reporting the end of the stream until the
+// gate is opened. At that point the peer has sent everything (as written up to a990c2d the recovery
+// transaction is filled, its supersedes reads are done and it is not committed; with the stream
+// drained first, nothing is decided yet) while the node's gossip ingress is already live.
+type vRecGate struct {
+	RecoveryTransportClient
+	open    chan struct{}
+	reached chan struct{}
+}
+
+type vRecGateStream struct {
+	RecoveryTransportClientStream
+	g *vRecGate
+}
+
+func (g *vRecGate) Stream(ctx context.Context, t address.Address) (RecoveryTransportClientStream, error) {
+	s, err := g.RecoveryTransportClient.Stream(ctx, t)
+	if err != nil {
+		return nil, err
+	}
+	return &vRecGateStream{s, g}, nil
+}
+
+func (s *vRecGateStream) Receive() (RecoveryResponse, error) {
+	r, err := s.RecoveryTransportClientStream.Receive()
+	if err != nil {
+		select {
+		case s.g.reached <- struct{}{}:
+		default:
+		}
+		<-s.g.open
+	}
+	return r, err
+}
+
+func (w *vWorld) recClient() RecoveryTransportClient {
+	c := RecoveryTransportClient(w.recNet.StreamClient())
+	if g := w.gate; g != nil {
+		w.gate = nil
+		g.RecoveryTransportClient = c
+		return g
+	}
+	return c
+}
+
 func vNewWorld(thr int) *vWorld {
 	return &vWorld{
 		ctx:      context.Background(),
@@ -274,7 +321,7 @@ func (w *vWorld) open(id int, members []int) error {
 		FeedbackTransportServer: w.fbNet.UnaryServer(a),
 		LeaseTransportClient:    &vLeaseClient{UnaryClient: w.leaseNet.UnaryClient(), w: w},
 		LeaseTransportServer:    w.leaseNet.UnaryServer(a),
-		RecoveryTransportClient: w.recNet.StreamClient(),
+		RecoveryTransportClient: w.recClient(),
 		RecoveryTransportServer: w.recNet.StreamServer(a),
 		GossipInterval:          interval,
 		RecoveryThreshold:       w.thr,
@@ -1340,6 +1387,10 @@ type vCluster struct {
 	rawMark map[int]int
 	stats   map[string]int
 	broken  string
+	// a node held inside its start-up recovery (restartGated)
+	gated     *vRecGate
+	gatedDone chan error
+	gatedNode int
 }
 
 func vNewCluster(n int, keys []string) (*vCluster, error) {
@@ -2002,6 +2053,126 @@ func (c *vCluster) restart(n int) {
 	c.finish(vEv{Ev: "recovered", N: n})
 }
 
+// restartGated: kv.Open of node n runs in the background and is held inside its start-up recovery
+// (vRecGate): the peer has streamed everything, Open has not returned, the node's transport
+// handlers are bound. deliverRec hands a gossip request to such a node; release lets Open finish.
+func (c *vCluster) restartGated(n int) {
+	nd := c.w.nodes[n]
+	if nd.up || c.gated != nil {
+		return
+	}
+	c.trace = append(c.trace, c.ev(vEv{Ev: "restart", N: n}))
+	c.markSubs()
+	g := &vRecGate{open: make(chan struct{}), reached: make(chan struct{}, 1)}
+	c.w.gate = g
+	mem := []int{}
+	for i := 1; i <= c.n; i++ {
+		mem = append(mem, i)
+	}
+	done := make(chan error, 1)
+	go func() { done <- c.w.open(n, mem) }()
+	select {
+	case <-g.reached:
+	case err := <-done:
+		c.broken = fmt.Sprintf("gated reopen returned early: %v", err)
+		return
+	case <-time.After(10 * time.Second):
+		c.broken = "gated reopen: the recovery stream never ended"
+		return
+	}
+	c.gated, c.gatedDone, c.gatedNode = g, done, n
+	peer := 1
+	if n == 1 {
+		peer = 2
+	}
+	c.trace = append(c.trace, c.ev(vEv{Ev: "recread", N: n, From: peer}))
+	c.stats["gated_restarts"]++
+}
+
+// one gossip exchange from node i to the node held in recovery (its handlers are live)
+func (c *vCluster) deliverRec(i int) {
+	if c.gated == nil {
+		return
+	}
+	n := c.gatedNode
+	inf, err := c.infected(i)
+	if err != nil {
+		c.broken = "tick: " + err.Error()
+		return
+	}
+	c.markSubs()
+	c.finish(vEv{Ev: "tick", From: i, To: n, Ops: c.absOps(inf)})
+	if len(inf) == 0 {
+		return
+	}
+	c.markSubs()
+	before := c.engines()[n-1]
+	c.w.mu.Lock()
+	fb0 := len(c.w.fbs)
+	c.w.mu.Unlock()
+	sctx, cancel := context.WithTimeout(c.w.ctx, 5*time.Second)
+	reply, err := c.w.opNet.UnaryClient().Send(sctx, vAddr(n), TxRequest{Sender: node.Key(i), Operations: inf})
+	cancel()
+	if err != nil {
+		// a node whose ingress waits for the recovery lock answers once recovery is done: not here
+		c.broken = "deliver to recovering node: " + err.Error()
+		return
+	}
+	abs := c.absOps(inf)
+	// no observer exists yet: processed = every operation is stored or was fed back
+	var acc, rej []vOp
+	vWait(func() bool {
+		acc, rej = nil, nil
+		cur := c.engines()[n-1]
+		for _, o := range abs {
+			if cur[o.K] == o.dig() && before[o.K] != o.dig() {
+				acc = append(acc, o)
+			}
+		}
+		c.w.mu.Lock()
+		for _, f := range c.w.fbs[fb0:] {
+			rej = append(rej, c.absOps(Digests(f.Msg.Digests).toRequest(c.w.ctx).Operations)...)
+		}
+		c.w.mu.Unlock()
+		return len(acc)+len(rej) >= len(abs)
+	}, time.Second)
+	c.w.mu.Lock()
+	for _, f := range c.w.fbs[fb0:] {
+		c.net = append(c.net, vMsg{T: "fb", From: f.From, To: vAddrID(f.To), Ops: Digests(f.Msg.Digests).toRequest(c.w.ctx).Operations})
+	}
+	c.w.mu.Unlock()
+	if len(reply.Operations) > 0 {
+		c.net = append(c.net, vMsg{T: "ack", From: n, To: i, Ops: reply.Operations})
+	}
+	c.taints["recgate"] = true
+	c.stats["ingress_during_recovery"] += len(acc)
+	c.finish(vEv{Ev: "sync", From: i, To: n, Ops: abs, Acc: acc, Rej: rej, Ack: c.absOps(reply.Operations)})
+}
+
+func (c *vCluster) release() {
+	if c.gated == nil {
+		return
+	}
+	n := c.gatedNode
+	c.markSubs()
+	close(c.gated.open)
+	select {
+	case err := <-c.gatedDone:
+		if err != nil {
+			c.broken = "reopen: " + err.Error()
+		}
+	case <-time.After(10 * time.Second):
+		c.broken = "gated reopen did not return"
+	}
+	c.gated = nil
+	if c.broken != "" {
+		return
+	}
+	c.rawMark[n] = 0
+	c.taints["restarted"] = true
+	c.finish(vEv{Ev: "recovered", N: n})
+}
+
 // masked schedules: start-up recovery writes what each peer streams in separate, unordered
 // transactions, so it is only stepped into when all peers hold the same digests.
 func (c *vCluster) peersAgree(n int) bool {
@@ -2181,6 +2352,12 @@ func (c *vCluster) runScript(s vScript) {
 			c.crash(vInt(st, "n"))
 		case "restart":
 			c.restart(vInt(st, "n"))
+		case "restart_gated":
+			c.restartGated(vInt(st, "n"))
+		case "deliver_rec":
+			c.deliverRec(vInt(st, "from"))
+		case "release":
+			c.release()
 		case "sub":
 			c.sub(vInt(st, "n"), vStr(st, "s"))
 		case "quiesce":
